@@ -308,7 +308,7 @@ class Ctx:
         b = z3.Bool(fresh_name("choice_" + label))
         return self.branch(b, label)
 
-    def check(self, name, goal, kind="ensures", detail=None):
+    def check(self, name, goal, kind="ensures", detail=None, state=None):
         """Proof obligation: goal must hold under the current path condition."""
         import time
         key_n = self.check_counts.get(name, 0)
@@ -325,6 +325,7 @@ class Ctx:
                 return
             goal = z3.BoolVal(False)
         t0 = time.time()
+        self.state_for_model = state
         status, model, backend = self.discharge(goal)
         dt = time.time() - t0
         self.solver_time += dt
